@@ -54,6 +54,8 @@ signvecs = z3.Function('signvecs', Int, CSeq)     # itertools.product([1,-1], re
 sprod = z3.Function('sprod', ISeq, Int)           # product of the entries
 smul = z3.Function('smul', ISeq, ISeq, ISeq)      # [l*s for l,s in zip(lits, signs)]
 pfilter = z3.Function('pfilter', ISeq, Int, Int, CSeq)  # [smul(l,s) for s in signvecs(len l)[:t] if sprod(s)==d]
+PairSet = z3.ArraySort(Int, Int, Bool)
+card2 = z3.Function('card2', PairSet, Int)           # cardinality of a finite set of pairs
 IArr = z3.ArraySort(Int, Int)
 psum = z3.Function('psum', IArr, IArr, Int, Int)   # psum(I,W,t) = sum_{s<t} (I[s]-1)*W[s]   (mixed-radix value)
 pow2 = z3.Function('pow2', Int, Int)              # 2**x for x >= 0
@@ -98,7 +100,7 @@ FUNCS = dict(tlen=tlen, tcoef=tcoef, tlit=tlit, tunit=tunit, tnegc=tnegc, tset=t
              ilen=ilen, iget=iget, inil=inil, isnoc=isnoc, iapp=iapp, ineg=ineg, haszero=haszero,
              maxof=maxof, minof=minof, maxabs=maxabs, lit_true=lit_true, count=count, ctrue=ctrue,
              clen=clen, cget=cget, cnil=cnil, csnoc=csnoc, capp=capp, ctake=ctake, combs=combs, sat=sat,
-             cmaxabs=cmaxabs, pow2=pow2, chaszero=chaszero, psum=psum, rnbrs=rnbrs, apseq=apseq, negunits=negunits, signvecs=signvecs, sprod=sprod, smul=smul, pfilter=pfilter)
+             cmaxabs=cmaxabs, pow2=pow2, chaszero=chaszero, psum=psum, card2=card2, rnbrs=rnbrs, apseq=apseq, negunits=negunits, signvecs=signvecs, sprod=sprod, smul=smul, pfilter=pfilter)
 
 
 def zmax(a, b):
@@ -262,6 +264,12 @@ def _on_terms(terms_by_decl):
             ok = z3.And(n == ilen(l), 0 <= t, t < pow2(n))
             out.append(z3.Implies(ok, z3.And(maxabs(smul(l, sgn)) == maxabs(l), haszero(smul(l, sgn)) == haszero(l),
                                              ilen(smul(l, sgn)) == ilen(l))))
+    for (st,) in terms_by_decl.get('card2', []):
+        out.append(card2(st) >= 0)
+        if z3.is_app(st) and st.decl().kind() == z3.Z3_OP_STORE:
+            base, x, y, val = st.children()
+            # Graph.lean card_insert / card_erase
+            out.append(card2(st) == card2(base) + z3.If(val, z3.If(z3.Select(base, x, y), 0, 1), z3.If(z3.Select(base, x, y), -1, 0)))
     ps = terms_by_decl.get('psum', [])
     for (I, W, t) in ps:
         # Block.lean psum_zero / psum_succ / psum_store_ge
@@ -312,7 +320,9 @@ def _opb_on_terms(d):
     for (t, i, c, l) in d.get('tset', []):
         n = tset(t, i, c, l)
         out += [tlen(n) == tlen(t),
-                _forall([j], z3.And(tcoef(n, j) == z3.If(j == i, c, tcoef(t, j)), tlit(n, j) == z3.If(j == i, l, tlit(t, j))),
+                # CnfSem.tget_set_general (the update only takes effect inside the list)
+                _forall([j], z3.And(tcoef(n, j) == z3.If(z3.And(j == i, 0 <= i, i < tlen(t)), c, tcoef(t, j)),
+                                    tlit(n, j) == z3.If(z3.And(j == i, 0 <= i, i < tlen(t)), l, tlit(t, j))),
                         [tcoef(n, j), tlit(n, j)]),
                 # Opb.lean thaszero_set / tmaxabs_set (the replaced literal has the same absolute value in normalize_opb)
                 z3.Implies(z3.And(0 <= i, i < tlen(t), zabs(l) == zabs(tlit(t, i))),
